@@ -294,6 +294,47 @@ def intersect(S, kind):
     S.prove_eq(val, ref, "intersection(%s).transform(raw) = transform onto [max lower, min upper]" % kind)
 
 
+def prior_expand(S, kind):
+    """prior.expand(batch_shape): the same density (hyper-parameters AND transform carried), still a Prior, original untouched;
+       MultivariateNormalPrior built from a covariance matrix exposes scale_tril / precision_matrix"""
+    x = S.rand(2, lo=0.4, hi=1.6)
+    X = S.sym_tensor(x, "x", positive=True)
+    tf = torch.exp if kind not in ("mvn", "mvn_cov") else None
+    if kind == "normal":
+        pr = P.NormalPrior(S.randn(2), S.rand(2, lo=0.5, hi=2.0), transform=tf); ps = (S.sym_tensor(pr.loc, "loc"), S.sym_tensor(pr.scale, "scale", positive=True))
+    elif kind == "gamma":
+        pr = P.GammaPrior(torch.tensor([2.0, 3.5]), S.rand(2, lo=0.5, hi=2.0), transform=tf); ps = (as_sym_arr(SH.get(pr.concentration)), S.sym_tensor(pr.rate, "rate", positive=True))
+    elif kind == "halfnormal":
+        pr = P.HalfNormalPrior(S.rand(2, lo=0.5, hi=2.0), transform=tf); ps = (S.sym_tensor(pr.scale, "scale", positive=True),)
+    elif kind == "halfcauchy":
+        pr = P.HalfCauchyPrior(S.rand(2, lo=0.5, hi=2.0), transform=tf); ps = (S.sym_tensor(pr.scale, "scale", positive=True),)
+    elif kind in ("mvn", "mvn_cov"):
+        A = torch.tensor([[1.1, 0.0], [0.4, 0.8]])
+        pr = P.MultivariateNormalPrior(torch.tensor([0.1, -0.2]), scale_tril=A) if kind == "mvn" else P.MultivariateNormalPrior(torch.tensor([0.1, -0.2]), covariance_matrix=A @ A.T)
+    with S.mode():
+        if kind in ("mvn", "mvn_cov"):
+            lp0 = pr.log_prob(x)
+            e = S.must_not_raise("MultivariateNormalPrior.expand", lambda: pr.expand(torch.Size([3])))
+            S.check_concrete(isinstance(e, P.Prior) and tuple(e.batch_shape) == (3,), "expanded MVN prior is a Prior with batch shape (3,)")
+            lp1 = e.log_prob(x)
+            for b in range(3):
+                S.prove_eq(lp1[b], as_sym_arr(SH.get(lp0)), "expanded MVN prior log_prob[%d] = original" % b)
+            st = S.must_not_raise("MultivariateNormalPrior.scale_tril / precision_matrix", lambda: (pr.scale_tril, pr.precision_matrix))
+            S.check_concrete(bool(torch.allclose(st[0] @ st[0].T @ st[1], torch.eye(2), atol=1e-10)), "scale_tril scale_tril^T precision = I")
+            return
+        lp0 = as_sym_arr(SH.get(pr.log_prob(x))).copy()
+        e = S.must_not_raise("%s prior expand" % kind, lambda: pr.expand(torch.Size([3, 2])))
+        S.check_concrete(isinstance(e, P.Prior) and tuple(e.batch_shape) == (3, 2), "expanded prior is a Prior with the requested batch shape", "%s %s" % (type(e).__name__, tuple(e.batch_shape)))
+        lp1 = e.log_prob(x)
+        lp2 = pr.log_prob(x)
+    ex = np.array([sym_exp(X[i]) for i in range(2)], dtype=object)
+    ref = np.array([_ref_prior(kind, ex[i], tuple(q[i] for q in ps)) for i in range(2)], dtype=object)
+    S.prove_eq(lp0, ref, "%s prior with transform=exp: log_prob(x) = density at exp(x)" % kind)
+    for b in range(3):
+        S.prove_eq(lp1[b], ref, "expanded %s prior log_prob[%d] (transform carried)" % (kind, b))
+    S.prove_eq(lp2, ref, "%s prior unchanged by expand" % kind)
+
+
 def prior_reassign(S, kind):
     """a prior whose hyper-parameter is RE-ASSIGNED after construction (prior.loc = ..., prior.scale = ...) evaluates its density
        at the new value and reads the new value back (transformed-distribution priors keep a base distribution in sync)"""
@@ -386,5 +427,7 @@ def scenarios(tier, seed):
         add("prior_reassign", kind=kind)
     for kind in ("interval", "greater", "less"):
         add("intersect", kind=kind)
+    for kind in ("normal", "gamma", "halfnormal", "halfcauchy", "mvn", "mvn_cov"):
+        add("prior_expand", kind=kind)
     add("registered_prior")
     return out
